@@ -132,9 +132,9 @@ PROPS["C12"] = dict(
     level="other",
     explanation="Every Broker API call executed symbolically with a registered node that re-enters Send on the same broker from Process, Close or Reopen; the RWMutex contract of the executor reports (a) any acquisition of a lock the goroutine already holds in a conflicting mode (self-deadlock) and (b) a recursive read lock (deadlocks behind a queued writer under Go's writer preference); locks held at return are asserted empty. Counterexamples are replayed natively with a watchdog (and, for (b), a stream of concurrent writers).",
     jobs=[dict(harness=BROKER_H, entries=r"^H_C12_reentry$|^H_C12_every_call_releases$", params=dict(quick={}, thorough={}), shards=dict(quick=4, thorough=4)),
-          dict(harness=BROKER_H, entries=r"^H_C12_reentry_vs_writer$", params=dict(quick={}, thorough={}), shards=dict(quick=4, thorough=8), maxswitches=dict(quick=3, thorough=5), instrument_locks=True),
+          dict(harness=BROKER_H, entries=r"^H_C12_reentry_vs_writer$|^H_C12_every_call_vs_writer$", params=dict(quick={}, thorough={}), shards=dict(quick=4, thorough=8), maxswitches=dict(quick=3, thorough=5), instrument_locks=True),
           dict(pkg="./filters/gated", harness=["gated/gated.go", "gated/c12.go"], entries=r"^H_C12_", params=dict(quick=dict(G=2), thorough=dict(G=3)), shards=dict(quick=4, thorough=8))],
-    must_reach=["C12.reentry.end", "C12.gated.end", "C12.reentry-vs-writer.end", "C12.every-call.end"],
+    must_reach=["C12.reentry.end", "C12.gated.end", "C12.reentry-vs-writer.end", "C12.every-call.end", "C12.every-call-vs-writer.end"],
     bounds=dict(quick="12 API operations x re-entry from {Process, Close, Reopen}; one re-entrant node", thorough="same"),
     trusted_base=COMMON_TRUST,
 )
